@@ -836,9 +836,17 @@ func (c *Cursor) Forward(ctx context.Context) error {
 		if err != nil {
 			return fmt.Errorf("load: %w", err)
 		}
+		depth, index := len(c.path), pe.linkIndex
 		pe.linkIndex++
 		c.path = append(c.path, pathEntry{node: node})
-		return c.Min(ctx)
+		if err := c.Min(ctx); err != nil {
+			// a load further down failed: put the cursor back on the entry it
+			// was on, so that the step can be retried
+			c.path = c.path[:depth]
+			c.path[depth-1].linkIndex = index
+			return err
+		}
+		return nil
 	} else {
 		if pe.linkIndex+1 < len(node.Key) {
 			pe.linkIndex++
